@@ -44,7 +44,26 @@ type Case struct {
 	// an ELEMENT of a typed map / slice whose string form comes from a pointer-receiver or
 	// interface method (*url.URL, *big.Int, error).
 	Paths map[string]string `json:"paths,omitempty"`
+	// Opt: engine option door - "" none, "less" (LESS processor registered; a fragment is wrapped
+	// together with a leading text/css+less style element, which must be compiled in place and
+	// leave everything after it alone), "components" (WithComponents over a components folder the
+	// source does not use), "proc" (a registered processor that changes nothing).
+	Opt string `json:"opt,omitempty"`
+	// FM: the file starts with a front-matter block defining a key nothing reads (file doors).
+	FM bool `json:"fm,omitempty"`
 }
+
+// (the LESS library compiles rules written over several lines; one-line rules come out empty)
+const lessStyle = "<style type=\"text/css+less\">\n@c: red;\n.zq {\n  color: @c;\n}\n</style>"
+
+var lessOut = regexp.MustCompile(`<style type="text/css">([^<]*)</style>`)
+
+// idle is a node processor that changes nothing.
+type idle struct{}
+
+func (idle) New() vuego.NodeProcessor        { return idle{} }
+func (idle) PreProcess([]*xhtml.Node) error  { return nil }
+func (idle) PostProcess([]*xhtml.Node) error { return nil }
 
 // element returns the description of the element a path hole reads.
 func element(v vals.V, suffix string) vals.V {
@@ -60,8 +79,8 @@ func element(v vals.V, suffix string) vals.V {
 	return vals.Nil()
 }
 
-var entriesFrag = []string{"string", "byte", "reader", "load", "file", "vue", "frag"}
-var entriesDoc = []string{"load", "file", "vue", "frag"}
+var entriesFrag = []string{"string", "byte", "reader", "load", "file", "vue", "frag", "view", "assign", "nodes-load", "nodes-frag", "withfs"}
+var entriesDoc = []string{"load", "file", "vue", "frag", "view", "assign", "nodes-load", "nodes-frag", "withfs"}
 
 func goData(c Case) map[string]any {
 	m := map[string]any{}
@@ -103,21 +122,76 @@ func render(c Case) (string, error) {
 		return t
 	}
 	var err error
+	src := c.Source
+	if c.FM {
+		src = "---\nzzunused: 1\n---\n" + src
+	}
+	files := map[string]string{"p.vuego": src}
+	var opts []vuego.LoadOption
+	switch c.Opt {
+	case "less":
+		opts = append(opts, vuego.WithLessProcessor())
+	case "components":
+		files["components/ZqCard.vuego"] = `<div class="zq"><slot></slot></div>`
+		opts = append(opts, vuego.WithComponents())
+	case "proc":
+		opts = append(opts, vuego.WithProcessor(idle{}))
+	}
+	fsys := memfs.FromMap(files)
+	newVue := func() *vuego.Vue {
+		v := vuego.NewVue(fsys)
+		switch c.Opt {
+		case "less":
+			v.RegisterNodeProcessor(vuego.NewLessProcessor(fsys))
+		case "components":
+			v.RegisterComponent("zq-card", "components/ZqCard.vuego")
+		case "proc":
+			v.RegisterNodeProcessor(idle{})
+		}
+		return v
+	}
+	// (an engine without a file system cannot take WithComponents: it walks the components folder)
+	inlineEngine := func() vuego.Template {
+		if c.Opt == "components" {
+			return vuego.NewFS(fsys, opts...)
+		}
+		return vuego.New(opts...)
+	}
 	switch c.Entry {
 	case "string":
-		err = fail(vuego.New().Fill(d)).RenderString(ctx, &buf, c.Source)
+		err = fail(inlineEngine().Fill(d)).RenderString(ctx, &buf, c.Source)
 	case "byte":
-		err = fail(vuego.New().Fill(d)).RenderByte(ctx, &buf, []byte(c.Source))
+		err = fail(inlineEngine().Fill(d)).RenderByte(ctx, &buf, []byte(c.Source))
 	case "reader":
-		err = fail(vuego.New().Fill(d)).RenderReader(ctx, &buf, strings.NewReader(c.Source))
+		err = fail(inlineEngine().Fill(d)).RenderReader(ctx, &buf, strings.NewReader(c.Source))
 	case "load":
-		err = fail(vuego.NewFS(memfs.FromMap(map[string]string{"p.vuego": c.Source})).Load("p.vuego").Fill(d)).Render(ctx, &buf)
+		err = fail(vuego.NewFS(fsys, opts...).Load("p.vuego").Fill(d)).Render(ctx, &buf)
 	case "file":
-		err = fail(vuego.NewFS(memfs.FromMap(map[string]string{"p.vuego": c.Source})).Fill(d)).RenderFile(ctx, &buf, "p.vuego")
+		err = fail(vuego.NewFS(fsys, opts...).Fill(d)).RenderFile(ctx, &buf, "p.vuego")
+	case "withfs":
+		err = fail(vuego.New(append([]vuego.LoadOption{vuego.WithFS(fsys)}, opts...)...).Load("p.vuego").Fill(d)).Render(ctx, &buf)
+	case "view":
+		err = fail(vuego.View(vuego.NewFS(fsys, opts...), "p.vuego", d)).Render(ctx, &buf)
+	case "assign":
+		t := vuego.NewFS(fsys, opts...).Load("p.vuego")
+		for _, n := range names {
+			t = t.Assign(n, d[n])
+		}
+		err = fail(t).Render(ctx, &buf)
 	case "vue":
-		err = vuego.NewVue(memfs.FromMap(map[string]string{"p.vuego": c.Source})).Render(&buf, "p.vuego", d)
+		err = newVue().Render(&buf, "p.vuego", d)
 	case "frag":
-		err = vuego.NewVue(memfs.FromMap(map[string]string{"p.vuego": c.Source})).RenderFragment(&buf, "p.vuego", d)
+		err = newVue().RenderFragment(&buf, "p.vuego", d)
+	case "nodes-load", "nodes-frag":
+		var nodes []*xhtml.Node
+		if c.Entry == "nodes-load" {
+			nodes, err = vuego.NewLoader(fsys).Load("p.vuego")
+		} else {
+			nodes, err = vuego.NewLoader(fsys).LoadFragment("p.vuego")
+		}
+		if err == nil {
+			err = newVue().RenderNodes(&buf, nodes, d)
+		}
 	default:
 		return "", fmt.Errorf("unknown entry %q", c.Entry)
 	}
@@ -215,9 +289,28 @@ func check(c Case) error {
 	if err != nil {
 		return fmt.Errorf("harness: expected source does not parse: %v", err)
 	}
-	out, err := render(Case{Source: src, Doc: c.Doc, Entry: c.Entry, Data: c.Data})
+	opt := c.Opt
+	if opt == "less" && c.Doc {
+		opt = "" // (a full document cannot be wrapped)
+	}
+	if opt == "less" {
+		src = `<div class="lesswrap">` + lessStyle + src + `</div>`
+		exp = `<div class="lesswrap"><style type="text/css">LESSCSS</style>` + exp + `</div>`
+		if want, err = parse(exp, c.Doc); err != nil {
+			return fmt.Errorf("harness: expected source does not parse: %v", err)
+		}
+	}
+	inline := c.Entry == "string" || c.Entry == "byte" || c.Entry == "reader"
+	out, err := render(Case{Source: src, Doc: c.Doc, Entry: c.Entry, Data: c.Data, Opt: opt, FM: c.FM && !inline})
 	if err != nil {
-		return fmt.Errorf("render failed: %v", err)
+		return fmt.Errorf("render failed [entry %s opt %q fm %v]: %v", c.Entry, opt, c.FM, err)
+	}
+	if opt == "less" {
+		m := lessOut.FindStringSubmatch(out)
+		if m == nil || !strings.Contains(strings.Join(strings.Fields(m[1]), " "), "color: red") {
+			return fmt.Errorf("the text/css+less style element was not compiled in place into <style type=\"text/css\"> with `color: red` [entry %s]\n--- output:\n%s", c.Entry, out)
+		}
+		out = strings.Replace(out, m[0], `<style type="text/css">LESSCSS</style>`, 1)
 	}
 	if m := after.Leaked(out); m != "" && !strings.Contains(src, m) {
 		return fmt.Errorf("the output shows %q: text or a value of an EARLIER, failed render (or of a failed call on the same template object) [entry %s]\n--- output:\n%s", m, c.Entry, out)
@@ -650,12 +743,20 @@ func genCase(withHoles bool) func(t *rapid.T) Case {
 		if len(c.Data) == 0 {
 			c.Data, c.Bound = nil, nil
 		}
+		c.Opt = rapid.SampledFrom([]string{"", "", "", "less", "components", "proc"}).Draw(t, "opt")
+		c.FM = rapid.IntRange(0, 3).Draw(t, "fm") == 0
 		return c
 	}
 }
 
 func classify(c Case) (bool, []string) {
 	cls := []string{"entry=" + c.Entry}
+	if c.Opt != "" {
+		cls = append(cls, "engine-option="+c.Opt)
+	}
+	if c.FM {
+		cls = append(cls, "front-matter-block")
+	}
 	nt := false
 	mark := func(cond bool, name string) {
 		if cond {
@@ -743,6 +844,11 @@ func TestProp(t *testing.T) {
 				cc.Entry = e
 				nt, cls := classify(cc)
 				run.Each(rec, "corpus", cc, nt, cls, checkStable)
+				for _, o := range []string{"less", "components", "proc"} {
+					cc.Opt, cc.FM = o, o != "less"
+					nt, cls := classify(cc)
+					run.Each(rec, "corpus", cc, nt, cls, checkStable)
+				}
 			}
 		}
 	}
